@@ -9,8 +9,8 @@ import (
 	"unsafe"
 
 	cache "github.com/fufuok/cache"
-	"github.com/fufuok/cache/internal/xsync"
 	vtime "github.com/fufuok/cache/internal/vshim/time"
+	"github.com/fufuok/cache/internal/xsync"
 )
 
 // ---- C10: keys are matched by Go equality for every comparable key type ----
@@ -41,6 +41,13 @@ type nested struct {
 	S strInt
 }
 type fkey struct{ F float64 }
+type boolPad struct {
+	A bool
+	N int32
+	B bool
+}
+type ifaceField struct{ I interface{} }
+type farr struct{ F [2]float64 }
 type ptrShaped struct{ P *int }
 type stringer interface{ String() string }
 type sval string
@@ -81,6 +88,14 @@ func runScript[K comparable](script int, x, y K, ops mapOps[K]) (o obs) {
 		v, ok := ops.compute(y, func(old int, ld bool) (int, bool) { return old + 10, false })
 		v2, ok2 := ops.load(x)
 		rec("compute=%d,%v load(x)=%d,%v", v, ok, v2, ok2)
+	case 6:
+		v, ok := ops.loadAndDelete(y)
+		v2, ok2 := ops.load(x)
+		rec("loadAndDelete=%d,%v load(x)=%d,%v size=%d", v, ok, v2, ok2, ops.size())
+	case 7:
+		v, ok := ops.compute(y, func(old int, ld bool) (int, bool) { return 0, true })
+		_, ok2 := ops.load(x)
+		rec("compute(delete)=%d,%v load(x) ok=%v size=%d", v, ok, ok2, ops.size())
 	case 5:
 		ops.store(y, 2)
 		n, sum := 0, 0
@@ -98,14 +113,15 @@ func runScript[K comparable](script int, x, y K, ops mapOps[K]) (o obs) {
 }
 
 type mapOps[K comparable] struct {
-	store        func(K, int)
-	load         func(K) (int, bool)
-	loadOrStore  func(K, int) (int, bool)
-	loadAndStore func(K, int) (int, bool)
-	del          func(K)
-	compute      func(K, func(int, bool) (int, bool)) (int, bool)
-	rng          func(func(K, int) bool)
-	size         func() int
+	store         func(K, int)
+	load          func(K) (int, bool)
+	loadOrStore   func(K, int) (int, bool)
+	loadAndStore  func(K, int) (int, bool)
+	del           func(K)
+	loadAndDelete func(K) (int, bool)
+	compute       func(K, func(int, bool) (int, bool)) (int, bool)
+	rng           func(func(K, int) bool)
+	size          func() int
 }
 
 func builtinOps[K comparable]() mapOps[K] {
@@ -129,6 +145,11 @@ func builtinOps[K comparable]() mapOps[K] {
 			return v, false
 		},
 		del: func(k K) { delete(m, k) },
+		loadAndDelete: func(k K) (int, bool) {
+			c, ok := m[k]
+			delete(m, k)
+			return c, ok
+		},
 		compute: func(k K, f func(int, bool) (int, bool)) (int, bool) {
 			c, ok := m[k]
 			nv, del := f(c, ok)
@@ -151,17 +172,18 @@ func builtinOps[K comparable]() mapOps[K] {
 }
 
 func mapOfOps[K comparable](m *xsync.MapOf[K, int]) mapOps[K] {
-	return mapOps[K]{store: m.Store, load: m.Load, loadOrStore: m.LoadOrStore, loadAndStore: m.LoadAndStore, del: m.Delete,
+	return mapOps[K]{store: m.Store, load: m.Load, loadOrStore: m.LoadOrStore, loadAndStore: m.LoadAndStore, del: m.Delete, loadAndDelete: m.LoadAndDelete,
 		compute: m.Compute, rng: m.Range, size: m.Size}
 }
 
 func cacheOfOps[K comparable](c cache.CacheOf[K, int]) mapOps[K] {
 	return mapOps[K]{
-		store:        func(k K, v int) { c.SetForever(k, v) },
-		load:         c.Get,
-		loadOrStore:  func(k K, v int) (int, bool) { return c.GetOrSet(k, v, cache.NoExpiration) },
-		loadAndStore: func(k K, v int) (int, bool) { return c.GetAndSet(k, v, cache.NoExpiration) },
-		del:          c.Delete,
+		store:         func(k K, v int) { c.SetForever(k, v) },
+		load:          c.Get,
+		loadOrStore:   func(k K, v int) (int, bool) { return c.GetOrSet(k, v, cache.NoExpiration) },
+		loadAndStore:  func(k K, v int) (int, bool) { return c.GetAndSet(k, v, cache.NoExpiration) },
+		del:           c.Delete,
+		loadAndDelete: c.GetAndDelete,
 		compute: func(k K, f func(int, bool) (int, bool)) (int, bool) {
 			return c.Compute(k, f, cache.NoExpiration)
 		},
@@ -170,7 +192,7 @@ func cacheOfOps[K comparable](c cache.CacheOf[K, int]) mapOps[K] {
 	}
 }
 
-var scriptNames = []string{"Store x; Load y", "Store x; LoadOrStore y", "Store x; LoadAndStore y; Load x", "Store x; Delete y; Load x", "Store x; Compute y; Load x", "Store x; Store y; Range+Size"}
+var scriptNames = []string{"Store x; Load y", "Store x; LoadOrStore y", "Store x; LoadAndStore y; Load x", "Store x; Delete y; Load x", "Store x; Compute y; Load x", "Store x; Store y; Range+Size", "Store x; LoadAndDelete y; Load x", "Store x; Compute(delete) y; Load x"}
 
 // checkKeyType enumerates everything for one key type.
 func checkKeyType[K comparable](st *c10Stats, tname string, vals []K, names []string, mutate func()) {
@@ -424,6 +446,15 @@ func runC10(rc *runCtx) int {
 		checkKeyType(st, "float32", []float32{0, float32(negZero), 1, float32(math.Inf(-1))}, []string{"+0", "-0", "1", "-Inf"}, nil)
 		checkKeyType(st, "complex128", []complex128{0, complex(negZero, 0), complex(0, negZero), 1i}, []string{"0", "-0+0i", "0-0i", "1i"}, nil)
 		checkKeyType(st, "bool", []bool{false, true}, []string{"false", "true"}, nil)
+		checkKeyType(st, "uint8", []uint8{0, 1, 255}, []string{"0", "1", "255"}, nil)
+		checkKeyType(st, "int16", []int16{0, -1, math.MinInt16}, []string{"0", "-1", "min"}, nil)
+		checkKeyType(st, "int32", []int32{0, 1, -1, math.MaxInt32}, []string{"0", "1", "-1", "max"}, nil)
+		checkKeyType(st, "complex64", []complex64{0, complex(float32(negZero), 0), 1 + 1i}, []string{"0", "-0+0i", "1+1i"}, nil)
+		checkKeyType(st, "[3]byte", [][3]byte{{}, {0, 0, 1}, {1, 0, 0}}, []string{"{0,0,0}", "{0,0,1}", "{1,0,0}"}, nil)
+		checkKeyType(st, "[2][2]int8", [][2][2]int8{{}, {{0, 1}, {0, 0}}, {{0, 0}, {1, 0}}}, []string{"zero", "a", "b"}, nil)
+		checkKeyType(st, "struct{bool;int32;bool}", []boolPad{{}, {true, 0, false}, {false, 0, true}, {false, 1, false}}, []string{"zero", "{t,0,f}", "{f,0,t}", "{f,1,f}"}, nil)
+		checkKeyType(st, "struct{interface{}}", []ifaceField{{nil}, {1}, {"a"}, {p}, {q}}, []string{"nil:{nil}", "{1}", "{a}", "pointer:{p}", "pointer:{q}"}, toggle)
+		checkKeyType(st, "struct{[2]float64}", []farr{{}, {[2]float64{negZero, 0}}, {[2]float64{0, 1}}}, []string{"{+0,+0}", "{-0,+0}", "{0,1}"}, nil)
 		checkKeyType(st, "*int", []*int{nil, p, q}, []string{"nil", "p", "q(*q==*p)"}, toggle)
 		checkKeyType(st, "unsafe.Pointer", []unsafe.Pointer{nil, unsafe.Pointer(p), unsafe.Pointer(q)}, []string{"nil", "p", "q"}, toggle)
 		checkKeyType(st, "chan int", func() []chan int { c := make(chan int); return []chan int{nil, c, make(chan int)} }(), []string{"nil", "c1", "c2"}, nil)
